@@ -98,10 +98,10 @@ Qed.
 
 Lemma props_unpack_safe : forall ptype b, safe_rd b (props_unpack ptype b).
 Proof.
-  intros. unfold props_unpack. destruct b as [|b0 bt] eqn:Eb; [cbn; lia|]. rewrite <- Eb. clear Eb b0 bt.
+  intros. unfold props_unpack. destruct b as [|b0 bt] eqn:Eb; [destruct (_ || _); cbn; [lia|exact I]|]. rewrite <- Eb. clear Eb b0 bt.
   pose proof (read_varint_safe b) as Hv.
   destruct (read_varint b) as [[n r]| | |]; cbn [bind safe_rd] in Hv |- *; auto.
-  destruct (n =? 0); [cbn [safe_rd]; lia|]. unfold buf_next.
+  destruct (n =? 0); [cbn [safe_rd]; lia|]. destruct (shorter r n); [exact I|]. unfold buf_next.
   pose proof (props_loop_safe (S (length (takeN n r))) ptype props_empty (takeN n r)) as Hl.
   destruct (props_loop _ _ _ _) as [p| | |]; cbn [bind safe safe_rd] in Hl |- *; try (apply Hl; lia); auto.
   destruct (_ && _); cbn [safe_rd]; [exact I|]. pose proof (dropN_length _ r n). lia.
@@ -125,7 +125,7 @@ Proof.
   intros. unfold will_props_unpack.
   pose proof (read_varint_safe b) as Hv.
   destruct (read_varint b) as [[n r]| | |]; cbn [bind safe_rd] in Hv |- *; auto.
-  destruct (n =? 0); [cbn [safe_rd]; lia|]. unfold buf_next.
+  destruct (n =? 0); [cbn [safe_rd]; lia|]. destruct (shorter r n); [exact I|]. unfold buf_next.
   pose proof (will_props_loop_safe (S (length (takeN n r))) props_empty (takeN n r)) as Hl.
   destruct (will_props_loop _ _ _) as [p| | |]; cbn [bind safe safe_rd] in Hl |- *; try (apply Hl; lia); auto.
   pose proof (dropN_length _ r n). lia.
@@ -158,9 +158,7 @@ Proof.
   destruct (negb ok); [exact I|].
   pose proof (read_byte_safe b1) as H2.
   destruct (read_byte b1) as [[opts b2]| | |]; cbn [bind remap safe safe_rd1] in H2 |- *; auto.
-  match goal with |- safe (if ?c then _ else _) => destruct c end; [exact I|].
-  match goal with |- safe (if ?c then _ else _) => destruct c end; [exact I|].
-  match goal with |- safe (if ?c then _ else _) => destruct c end; [exact I|].
+  do 5 (match goal with |- safe (if ?c then _ else _) => destruct c end; [exact I|]).
   destruct b2 as [|x b2']; [exact I|]. apply IHfuel. lia.
 Qed.
 Lemma safe_sub_topics : forall v b, safe (sub_topics_loop (S (length b)) v [] b).
@@ -171,16 +169,16 @@ Proof. intros. unfold parse_subscribe. ss. Qed.
 Lemma parse_suback_safe : forall v b, safe (parse_suback v b).
 Proof. intros. unfold parse_suback, parse_codes. ss. Qed.
 
-Lemma unsub_topics_loop_safe : forall fuel acc b, (length b < fuel)%nat -> safe (unsub_topics_loop fuel acc b).
+Lemma unsub_topics_loop_safe : forall fuel ver acc b, (length b < fuel)%nat -> safe (unsub_topics_loop fuel ver acc b).
 Proof.
-  induction fuel; intros acc b Hf; [lia|]. cbn [unsub_topics_loop].
+  induction fuel; intros ver acc b Hf; [lia|]. cbn [unsub_topics_loop].
   pose proof (read_utf8_string_safe true b) as H1.
   destruct (read_utf8_string true b) as [[tf b1]| | |]; cbn [bind safe safe_rd1] in H1 |- *; auto.
-  apply safe_bind_all; [auto with csafe|]. intros ok.
+  apply safe_bind_all; [destruct (ver =? 5); auto with csafe|]. intros ok.
   destruct (negb ok); [exact I|].
   destruct b1 as [|x b1']; [exact I|]. apply IHfuel. lia.
 Qed.
-Lemma safe_unsub_topics : forall b, safe (unsub_topics_loop (S (length b)) [] b).
+Lemma safe_unsub_topics : forall v b, safe (unsub_topics_loop (S (length b)) v [] b).
 Proof. intros. apply unsub_topics_loop_safe. lia. Qed.
 #[export] Hint Resolve safe_unsub_topics : csafe.
 Lemma parse_unsubscribe_safe : forall v b, safe (parse_unsubscribe v b).
